@@ -983,6 +983,38 @@ impl Entry for SgEntry {
         it
     }
 }
+/// small entry that differs in the timestamp items it writes: "T0" none, "T2e" two equal ones around the
+/// value, "T2d" two different ones, "T3" equal, equal, different, value, the first again
+struct TsEntry {
+    kind: String,
+    mag: usize,
+}
+impl Entry for TsEntry {
+    fn write<'a>(&'a self, w: &mut impl EntryWriter<'a>) {
+        let (t1, t2) = (SystemTime::UNIX_EPOCH + T1, SystemTime::UNIX_EPOCH + T2);
+        let v = MAG_U[self.mag % 6];
+        match self.kind.as_str() {
+            "T0" => w.value("u64", &v),
+            "T2e" => {
+                w.timestamp(t1);
+                w.value("u64", &v);
+                w.timestamp(t1);
+            }
+            "T2d" => {
+                w.timestamp(t1);
+                w.value("u64", &v);
+                w.timestamp(t2);
+            }
+            _ => {
+                w.timestamp(t1);
+                w.timestamp(t1);
+                w.timestamp(t2);
+                w.value("u64", &v);
+                w.timestamp(t1);
+            }
+        }
+    }
+}
 fn sg_entry(base: &str, mag: usize) -> Option<SgEntry> {
     let b = base.as_bytes();
     if b.len() == 3 && b[0] == b'S' {
@@ -1288,6 +1320,7 @@ fn cmd_entries(a: &HashMap<String, String>) {
                 let mut e = match base {
                     "E" => layer_e(be),
                     "G" => g.clone(),
+                    b if b.starts_with('T') => layer_e(TsEntry { kind: b.to_string(), mag: mi.get(1).copied().unwrap_or(0) }),
                     _ => match sg_entry(base, mi.get(1).copied().unwrap_or(0)) {
                         Some(se) => layer_e(se),
                         Option::None => layer_e(metrique_writer::core::entry::EmptyEntry),
